@@ -33,6 +33,18 @@ func init() {
 		}
 		return mkSym(fr.strictDeepEq(x.t, x.v, y.v, 0), types.Bool)
 	}
+	// field.Error.ErrorBody formats the bad value through reflection; the text is only a message
+	intrinsics["(*k8s.io/apimachinery/pkg/util/validation/field.Error).ErrorBody"] = func(fr *frame, a []value) value {
+		p := a[0].(*value)
+		if p == nil {
+			fr.runtimePanic("runtime error: invalid memory address or nil pointer dereference")
+		}
+		st := (*p).(structure)
+		t := fr.i.named("k8s.io/apimachinery/pkg/util/validation/field", "Error")
+		typ := fr.i.ctx.concStr(st[fieldIndex(t, "Type")])
+		detail := fr.i.ctx.concStr(st[fieldIndex(t, "Detail")])
+		return typ + ": " + detail
+	}
 	intrinsics["math.Max"] = func(fr *frame, a []value) value { return math.Max(a[0].(float64), a[1].(float64)) }
 	intrinsics["math.Min"] = func(fr *frame, a []value) value { return math.Min(a[0].(float64), a[1].(float64)) }
 	intrinsics["math.Round"] = func(fr *frame, a []value) value { return math.Round(a[0].(float64)) }
